@@ -8,6 +8,7 @@
   * a despawn reaction — queued, prepared or running — is always about a dead entity.
 -/
 import Cobweb.Proofs.Kill
+import Cobweb.Proofs.Trackers
 import Cobweb.Exec
 
 namespace Cobweb
@@ -385,27 +386,24 @@ theorem wstep_setupK {s : St} (hc : WCore s) (k : Kind) (sys : Nat) : WStep s (s
   · exact wstep_refl hc
   · exact WStep.of_same ⟨rfl, rfl, rfl, rfl, rfl, rfl, rfl, rfl, rfl⟩ hc
   · exact WStep.of_same ⟨rfl, rfl, rfl, rfl, rfl, rfl, rfl, rfl, rfl⟩ hc
-  · have hc' : WCore ({ s with trkDsp := (s.trkDsp.start sys).1 } : St) := by
+  · rename_i src hd
+    have hc' : WCore ({ s with trkDsp := (s.trkDsp.start sys src hd).1 } : St) := by
       refine ⟨hc.watched, hc.trkAlive, hc.chanGone, hc.chanNodup, hc.freshDead, hc.remTracked, hc.entRemTracked, ?_, ?_⟩
       · intro p hp
         show gone s p.2.1
-        unfold TrkDsp.start at hp
-        split at hp
-        · exact hc.prepGone p hp
-        · split at hp
-          · exact hc.prepGone p hp
-          · exact hc.prepGone p (mem_swapRemove _ _ _ hp)
+        by_cases hm : (sys, src, hd) ∈ s.trkDsp.prepared
+        · rw [(TrkDsp.start_claims_own s.trkDsp sys src hd hm).2.2.2.1] at hp
+          exact hc.prepGone p (List.mem_of_mem_erase hp)
+        · rw [TrkDsp.start_none s.trkDsp sys src hd hm] at hp
+          exact hc.prepGone p hp
       · intro hr
-        show gone s (s.trkDsp.start sys).1.curSrc
-        unfold TrkDsp.start at hr ⊢
-        split
-        · rename_i h; simp only [h] at hr; exact hc.curGone hr
-        · rename_i i h
-          split
-          · rename_i h2; simp only [h, h2] at hr; exact hc.curGone hr
-          · rename_i a src hh hget
-            exact hc.prepGone (a, src, hh) (List.mem_of_getElem? hget)
-    have h1 : WStep s ({ s with trkDsp := (s.trkDsp.start sys).1 } : St) := ⟨hc', fun _ h => h, fun _ h => h⟩
+        show gone s (s.trkDsp.start sys src hd).1.curSrc
+        by_cases hm : (sys, src, hd) ∈ s.trkDsp.prepared
+        · rw [(TrkDsp.start_claims_own s.trkDsp sys src hd hm).2.1]
+          exact hc.prepGone (sys, src, hd) hm
+        · rw [TrkDsp.start_none s.trkDsp sys src hd hm] at hr ⊢
+          exact hc.curGone hr
+    have h1 : WStep s ({ s with trkDsp := (s.trkDsp.start sys src hd).1 } : St) := ⟨hc', fun _ h => h, fun _ h => h⟩
     split
     · exact h1.right (coreSame_dropHandle _ _)
     · exact h1
@@ -648,9 +646,9 @@ theorem watch_applyCmd {s : St} (hc : WCore s) (c : Cmd) (hcmd : cmdOK s c) :
       · exact hc.prepGone p hp
       · simp only [List.mem_singleton] at hp; subst hp; exact hcmd
     have hw : WStep s (({ s with trkDsp := { s.trkDsp with prepared := s.trkDsp.prepared ++ [(sys, src, h)] } } : St).push
-        [.runnerStart sys (.dspReact src)]) :=
+        [.runnerStart sys (.dspReact src h)]) :=
       (⟨hc', fun _ h => h, fun _ h => h⟩ : WStep s _).right (by csame)
-    exact ⟨hw, fun x hx => hw.tr x hx, [.runnerStart sys (.dspReact src)], rfl, by simp [frameOK]⟩
+    exact ⟨hw, fun x hx => hw.tr x hx, [.runnerStart sys (.dspReact src h)], rfl, by simp [frameOK]⟩
   | spawnStorage sys => simp only [applyCmd]; split <;> exact same _ [] rfl (by csame) rfl (by simp)
   | insertOnce sys => simp only [applyCmd]; split <;> exact same _ [] rfl (by csame) rfl (by simp)
   | spawnData d x => simp only [applyCmd]; split <;> exact same _ [] rfl (by csame) rfl (by simp)
